@@ -50,11 +50,22 @@ type harness struct {
 	r   *rep.Reporter
 	res *scriptResolver
 
-	pipe       *msgpipeline.MsgPipeline
-	chk        *mx.ScriptCheck
+	chk        *mx.ScriptCheck // reports every result ("c07scripted")
+	px         pipes           // further scripted checks and the pipelines per layout (pipe_test.go)
 	tgt        *mx.ScriptTarget
 	curResults []authres.Result
 	seq        int
+
+	lp       *prng.R       // pipeline-path dimensions of the current case (layout, answer timing)
+	cur      *pipeScenario // pipeline scenario of the delivery being judged
+	watchdog int
+}
+
+// beginCase starts the separate PRNG stream the pipeline-path dimensions of a
+// case are drawn from (reproducible from seed and case index; the points
+// themselves are drawn as before).
+func (h *harness) beginCase(index int) {
+	h.lp = prng.New(h.r.Seed(), uint64(index), "c07-pipeline-path")
 }
 
 func newHarness(t *testing.T, r *rep.Reporter) *harness {
@@ -69,14 +80,32 @@ func newHarness(t *testing.T, r *rep.Reporter) *harness {
 	}
 	h.tgt = mx.NewTarget("c07tgt", lg)
 	module.Register("check.c07scripted", func(_, _ string, _, _ []string) (module.Module, error) { return h.chk, nil })
-	mx.RegisterInstance(h.tgt)
-	p, err := mx.BuildPipeline("dmarc yes\ncheck {\n  c07scripted\n}\ndeliver_to &c07tgt\n", nil)
-	if err != nil {
-		t.Fatalf("c07: cannot build pipeline: %v", err)
+	// the same results reported by two checks (DKIM and unrelated methods / SPF), and a check that reports nothing
+	h.px = pipes{built: map[string]*msgpipeline.MsgPipeline{}, dk: mx.NewCheck("c07dk", lg), sp: mx.NewCheck("c07sp", lg), noop: mx.NewCheck("c07noop", lg)}
+	h.px.dk.Result = func(p mx.CheckPoint) module.CheckResult {
+		if p.Stage == "body" {
+			dk, _ := splitResults(h.curResults)
+			return module.CheckResult{AuthResult: dk}
+		}
+		return module.CheckResult{}
 	}
-	p.Resolver = h.res
-	p.Hostname = "mx.example.net"
-	h.pipe = p
+	h.px.sp.Result = func(p mx.CheckPoint) module.CheckResult {
+		if p.Stage == "body" {
+			_, sp := splitResults(h.curResults)
+			return module.CheckResult{AuthResult: sp}
+		}
+		return module.CheckResult{}
+	}
+	module.Register("check.c07dk", func(_, _ string, _, _ []string) (module.Module, error) { return h.px.dk, nil })
+	module.Register("check.c07sp", func(_, _ string, _, _ []string) (module.Module, error) { return h.px.sp, nil })
+	module.Register("check.c07noop", func(_, _ string, _, _ []string) (module.Module, error) { return h.px.noop, nil })
+	mx.RegisterInstance(h.tgt)
+	tbl := mx.NewTable("c07tbl") // source_in / destination_in
+	tbl.M["sender@example.net"] = []string{"1"}
+	tbl.M["rcpt@example.net"] = []string{"1"}
+	mx.RegisterInstance(tbl)
+	h.pipelineFor(baseLayout)
+	h.beginCase(-1)
 	return h
 }
 
@@ -114,11 +143,24 @@ var dmarcRe = regexp.MustCompile(`dmarc=([a-z]+)`)
 func (h *harness) deliver(hdr textproto.Header, results []authres.Result) (value, action string, log []string) {
 	h.seq++
 	lg := mx.NewLog()
-	h.chk.Log, h.tgt.Log = lg, lg
+	h.tgt.Log = lg
+	for _, c := range h.allChecks() {
+		c.Log = lg
+	}
 	h.curResults = results
+	sc := drawScenario(h.lp)
+	h.cur = sc
+	h.countScenario(sc)
+	finish := h.prepare(sc)
+	defer func() {
+		finish()
+		if n := h.res.takeWatchdog(); n != 0 {
+			h.watchdog += n
+		}
+	}()
 	ctx := context.Background()
 	meta := &module.MsgMetadata{ID: fmt.Sprintf("c07-%d", h.seq), OriginalFrom: "sender@example.net", DontTraceSender: true}
-	d, err := h.pipe.Start(ctx, meta, "sender@example.net")
+	d, err := h.pipelineFor(sc.L).Start(ctx, meta, "sender@example.net")
 	if err != nil {
 		h.t.Fatalf("c07: pipeline Start: %v", err)
 	}
@@ -188,6 +230,8 @@ type witness struct {
 	ExpectPolicy   string   `json:"model_published"`
 	ObservedValue  string   `json:"observed_dmarc_value"`
 	ObservedAction string   `json:"observed_action"`
+	Pipeline       string   `json:"pipeline_scenario,omitempty"`
+	PipelineConfig string   `json:"pipeline_config,omitempty"`
 	Log            []string `json:"log,omitempty"`
 }
 
@@ -220,13 +264,23 @@ func (h *harness) judge(c *rep.Case, layer string, pt *point, ex *expect, zones 
 	if value != "" {
 		r.Count("obs_"+layer+"_value_"+value, 1)
 	}
+	var sc *pipeScenario // pipeline-path dimensions: never part of what is demanded, only of where it was observed
+	if layer == "pipeline" {
+		sc = h.cur
+	}
 	viol := func(sig, what string) {
 		flagged = true
-		c.Violation(layer+"/"+sig, what, witness{
+		w := witness{
 			Layer: layer, Point: pt, Zones: zoneStrings(zones), Results: authres.Format("mx.example.net", results),
 			ExpectAligned: ex.Aligned, ExpectAllowed: ex.Allowed, ExpectWhy: ex.Why, ExpectPolicy: ex.Published + " via " + ex.Via,
 			ObservedValue: value, ObservedAction: action, Log: log,
-		})
+		}
+		if sc != nil {
+			sig += sc.sigSuffix()
+			what += " [pipeline: " + sc.String() + "]"
+			w.Pipeline, w.PipelineConfig = sc.String(), sc.L.config()
+		}
+		c.Violation(layer+"/"+sig, what, w)
 	}
 	pass := value == "pass"
 	if pt.Shape == ShOpen {
@@ -243,6 +297,7 @@ func (h *harness) judge(c *rep.Case, layer string, pt *point, ex *expect, zones 
 	}
 	if ex.TempDNS {
 		r.Count("judged_dns_tempfail", 1)
+		h.countJudged(sc, "dns_tempfail")
 		if action != ActTempfail {
 			viol("dns-tempfail/"+pt.Lookup+"/observed="+action,
 				fmt.Sprintf("temporary DNS failure while fetching the policy of %s (%s): expected a temporary refusal, observed %s (dmarc=%s)", pt.From, pt.Lookup, action, value))
@@ -270,6 +325,10 @@ func (h *harness) judge(c *rep.Case, layer string, pt *point, ex *expect, zones 
 		return false
 	}
 	r.Count("judged_action_"+ex.Why, 1)
+	switch ex.Why {
+	case "reject", "quarantine", "auth-temperror-undecided", "reject-with-unalignable-temperror":
+		h.countJudged(sc, "enforced_action")
+	}
 	if !contains(ex.Allowed, action) {
 		pub := ""
 		if ex.Published != "" {
@@ -298,6 +357,12 @@ func (h *harness) evalPoint(c *rep.Case, pt *point, hdr textproto.Header, zones 
 			h.r.Count("pipeline_not_judged_verifier_already_flagged", 1)
 		} else {
 			h.judge(c, "pipeline", pt, &ex, zones, results, pv, pa, log)
+		}
+		if h.watchdog != 0 {
+			// a check group the layout configures for this sender/recipient was never handed the body
+			h.r.Count("pipe_dns_gate_released_by_watchdog", int64(h.watchdog))
+			c.Inconclusive("policy answer released by the watchdog, the scripted check body stage was never reached: " + h.cur.String())
+			h.watchdog = 0
 		}
 	}
 	if shapes != nil && pt.Shape != ShOpen {
@@ -631,6 +696,7 @@ func TestVerif(t *testing.T) {
 			if b.NDKIM > 1 {
 				pe = 101
 			}
+			h.beginCase(baseLattice + i)
 			h.runBlock(c, i, b, pe)
 		})
 	}
@@ -639,10 +705,10 @@ func TestVerif(t *testing.T) {
 
 	ns := r.N(400, 15000)
 	for i := 0; i < ns; i++ {
-		r.Run(baseSample+i, fmt.Sprintf("sample-%d", i), func(c *rep.Case) { h.runSample(c, baseSample+i) })
+		r.Run(baseSample+i, fmt.Sprintf("sample-%d", i), func(c *rep.Case) { h.beginCase(baseSample + i); h.runSample(c, baseSample+i) })
 	}
 	for i, sc := range shapeCases() {
 		sc := sc
-		r.Run(baseShapes+i, fmt.Sprintf("shape/%s-%d", sc.Shape, sc.Kind), func(c *rep.Case) { h.runShape(c, sc) })
+		r.Run(baseShapes+i, fmt.Sprintf("shape/%s-%d", sc.Shape, sc.Kind), func(c *rep.Case) { h.beginCase(baseShapes + i); h.runShape(c, sc) })
 	}
 }
